@@ -23,7 +23,7 @@ B = [
      "        ref = np.ma.zeros(inp.size, dtype=np.float64)\n        for k in range(1, inp.size - 1):\n            ref[k] = (inp[k - 1] + inp[k + 1]) / 2\n        ref = np.ma.masked_invalid(ref)\n",
      "spike average reference computed in a loop"),
     ("collect_no_shortcut", "ioos_qc/results.py",
-     "                if r.subset_indexes.all():\n                    collected[cr.hash_key].data = r.data\n                    collected[cr.hash_key].tinp = r.tinp\n                    collected[cr.hash_key].zinp = r.zinp\n                    collected[cr.hash_key].lat = r.lat\n                    collected[cr.hash_key].lon = r.lon\n                else:\n",
+     "                if r.subset_indexes.all():\n                    # Copies: a later context with a window for the same stream and test\n                    # writes its rows into these arrays, and what a stream hands out may\n                    # be a read-only view of the source data\n                    collected[cr.hash_key].data = np.array(r.data, copy=True, subok=True)\n                    collected[cr.hash_key].tinp = np.array(r.tinp, copy=True, subok=True)\n                    collected[cr.hash_key].zinp = np.array(r.zinp, copy=True, subok=True)\n                    collected[cr.hash_key].lat = np.array(r.lat, copy=True, subok=True)\n                    collected[cr.hash_key].lon = np.array(r.lon, copy=True, subok=True)\n                else:\n",
      "                if True:\n",
      "collector never aliases the context's arrays (always scatters)"),
     ("pandas_positional_mask", "ioos_qc/streams.py",
